@@ -185,9 +185,25 @@ func (e *mkrsendEnv) setup(ws []string, viaBank bool) (ctx sdk.Context, from, to
 	if viaBank {
 		// fund the sender while no marker exists yet (afterwards a restricted coin could not be
 		// handed to e.g. the fee collector by any bank route)
-		if err = e.fund(ctx, from, coins); err != nil {
-			err = fmt.Errorf("fund: %w", err)
-			return
+		// (`fund=<coins>` overrides what the sender gets — to under-fund it; the coins to move may be
+		// an invalid sdk.Coins — unsorted, repeated denom, zero amount —, the funding is its valid sum)
+		fundSrc := coins
+		if fs := kvArg(ws, "fund"); fs != "" {
+			if fundSrc, err = mkrsendCoins(fs); err != nil {
+				return
+			}
+		}
+		funding := sdk.Coins{}
+		for _, c := range fundSrc {
+			if c.Amount.IsPositive() {
+				funding = funding.Add(c)
+			}
+		}
+		if !funding.IsZero() {
+			if err = e.fund(ctx, from, funding); err != nil {
+				err = fmt.Errorf("fund: %w", err)
+				return
+			}
 		}
 	}
 	for _, m := range mkrsendList(kvArg(ws, "markers"), "|") {
